@@ -417,8 +417,56 @@ func c20Options(p *Prog, r *Report) {
 				}
 			}
 		}
-		r.Check(len(setC) == 1 && setC[0].Args[0] == "-1" && setC.AllGuarded("!recv.countSet") && len(setFlag) == 1 && len(setFlag[0].Guard) == 0, R, "count-not-overridden", setC.Pos(p),
+		r.Check(len(setC) == 1 && setC[0].Args[0] == "-1" && setC.AllGuarded("!recv.countSet") && len(setFlag) == 1 && setFlag[0].Unconditional(), R, "count-not-overridden", setC.Pos(p),
 			"--send-interval makes the count unbounded only if --count was not given (tracked by an explicit flag)", "--send-interval overrides an explicitly given --count (the 'was it given' test is not the explicit countSet flag): `--count 1 -i N` sends for ever")
+	}
+
+	R = "C20.10/file-read-whole"
+	r.Describe(R, "--file stores what a whole-file read returned (ReadFile / ReadAll): a read sized by Stat sends nothing for a pipe, /dev/stdin or a /proc file")
+	if f := q.Fn(R, "macat", "App", "setSendFile"); f.OK() {
+		st := f.Ev("store", "recv.sendData")
+		ok := len(st) >= 1
+		for _, e := range st {
+			v := e.Args[0]
+			if !(strings.HasPrefix(v, "ioutil.ReadFile(") || strings.HasPrefix(v, "os.ReadFile(") || strings.HasPrefix(v, "io.ReadAll(") || strings.HasPrefix(v, "ioutil.ReadAll(")) || !strings.HasSuffix(v, "#0") {
+				ok = false
+			}
+		}
+		r.Check(ok, R, "setSendFile/whole-file", st.Pos(p), "sendData = result of a whole-file read", "setSendFile does not store the result of a whole-file read (ReadFile/ReadAll): "+argsOf(st))
+	}
+	R = "C20.11/timeouts-applied"
+	r.Describe(R, "Run applies --recv-timeout as the receive deadline and --send-timeout as the send deadline, each only when given (>= 0)")
+	if f := q.Fn(R, "macat", "App", "Run"); f.OK() {
+		evs := append(append([]*Ev{}, p.Events(f.fn)...), p.EventsDeep(f.fn)...)
+		for _, t := range [][2]string{{`"RECV-DEADLINE"`, "recv.recvTimeout"}, {`"SEND-DEADLINE"`, "recv.sendTimeout"}} {
+			var so Sel
+			for _, e := range evs {
+				if e.Kind == "call" && strings.HasSuffix(e.What, ".SetOption") && len(e.Args) >= 3 && e.Args[1] == t[0] {
+					so = append(so, e)
+				}
+			}
+			ok, right := true, 0
+			for _, e := range so {
+				if !strings.Contains(e.Args[2], "Timeout") {
+					continue // (the send loops set the receive deadline from the send interval)
+				}
+				if !strings.Contains(e.Args[2], t[1]) {
+					ok = false
+					continue
+				}
+				right++
+				g := false
+				for _, a := range e.Guard {
+					if strings.Contains(a, t[1]) && (strings.HasSuffix(a, ">= 0") || strings.HasSuffix(a, "> -1")) {
+						g = true
+					}
+				}
+				if !g {
+					ok = false
+				}
+			}
+			r.Check(ok && right >= 1, R, "Run/"+strings.Trim(t[0], `"`), so.Pos(p), t[0]+" is set from "+t[1]+" when it was given", "Run does not set "+t[0]+" from "+t[1]+" (guarded by its being >= 0): the given timeout is not the one applied: "+argsOf(so)+" "+guardsOf(so))
+		}
 	}
 
 	R = "C20.4/duration"
